@@ -1,12 +1,12 @@
 PROPS = ["CTV.Props.C11"]
 HARNESS = [dict(pkg="./x509/", test="TestVerifC11", timeout=1200)]
 RULE = ("certificates, CRLs, keys and CSRs from /repo/testdata, /repo/trillian/testdata, x509/testdata (incl. testdata/invalid) and the package's own test vectors, "
-        "certificates issued by crypto/x509.CreateCertificate from random templates over every extension the fork interprets, structure-preserving mutations of all of "
-        "them (DER tree edited, enclosing lengths recomputed; typed mutations reach the lax relaxations), concatenations of 1-4 accepted certificates, random bytes; "
+        "certificates issued by crypto/x509.CreateCertificate from random templates (key usage, EKU incl. unknown, basic constraints, SAN DNS/email/IP/URI, name constraints of all four kinds, policies, AIA, CRL DP, SKI/AKI, unknown and critical extensions, CT poison; validity on both edges of the UTCTime window 1950/2049 and beyond; NOT generated: SIA, RPKI address/AS blocks, embedded SCT lists, IA5/T61/BMP name strings, ECDSA/PSS signatures), bare certificates (no optional part) and certificates with unique ids, structure-preserving mutations of all of "
+        "them (DER tree edited, enclosing lengths recomputed; typed mutations reach the lax relaxations), ordered and random concatenations of 1-4 accepted certificates compared certificate by certificate with ParseCertificate on the piece, random bytes; "
         "through all twelve entry points; non-trivial = distinct operation lines whose implementation answer is not 'fatal'")
 TRUSTED = ["parseCertificate's payload processing (names, keys, extension contents) is an oracle to the wrapper model: its observed (object, error) result is an input of the pc/ptbs/pcs lines",
            "field-by-field agreement with crypto/x509 of go1.24.1 on encoder-issued certificates is correspondence-only (no Lean model of the extension payloads)"]
-ASSUMPTIONS = ["InnerOK: parseCertificate returns (object, nil | NonFatalErrors) or (nil, fatal error) (checked on every case by the harness)",
+ASSUMPTIONS = ["a Go function returns through one of its return statements (their shapes are regenerated into Gen.X509Shapes; InnerOK is derived from them and additionally checked on every case by the harness)",
                "crypto/x509.CreateCertificate stands for 'a conforming encoder'"]
 
 def is_nontrivial(op, impl):
